@@ -116,3 +116,22 @@ pub unsafe fn cast<A, B>(a: A) -> B {
     let a = core::mem::ManuallyDrop::new(a);
     core::mem::transmute_copy::<A, B>(&*a)
 }
+
+/// The documented repr(C) layout of `DiplomatWrite` (runtime/src/write.rs), used for back ends whose
+/// declarations do not spell the struct out (Dart, Kotlin pass an opaque pointer).
+#[repr(C)]
+pub struct WMirror {
+    pub context: *mut core::ffi::c_void,
+    pub buf: *mut u8,
+    pub len: usize,
+    pub cap: usize,
+    pub grow_failed: bool,
+    pub flush: extern "C" fn(*mut WMirror),
+    pub grow: extern "C" fn(*mut WMirror, usize) -> bool,
+}
+pub extern "C" fn wm_flush(_w: *mut WMirror) {
+    unsafe { FLUSHES += 1 };
+}
+pub extern "C" fn wm_grow(_w: *mut WMirror, _n: usize) -> bool {
+    false
+}
